@@ -276,6 +276,17 @@ pub fn run_c08(ctx: &Ctx, sink: &mut Sink) {
                 sink.push(Case { req, imp, tags: vec!["multi", "sibling-dirs", "nt"] });
             }
         }
+        // -prune evaluated on the very entry at which `finished_dir` dispatches the (failing) batch of the
+        // directory just left: the mark must be honoured whatever the exit code bookkeeping says
+        for script in [vec![], vec![1u32, 1, 1, 1, 1, 1], vec![0u32, 3, 0, 1009]] {
+            for pruned in ["b", "c"] {
+                let roots = vec![(b"r".to_vec(), crate::world::observe_root(b"r", &d.join("r")))];
+                let toks: Vec<String> = vec!["sorted".into(), crate::fexpr::name_tok(pruned.as_bytes()), "prune".into(), "o".into(),
+                    format!("execm:0:1:1:{}:{}", hex(&rec), hexjoin(&[b"A1".to_vec()]))];
+                let (req, imp) = run_exec_case(ctx, &sc, "P", &roots, &ExecCase { toks, script: script.clone() }, &mut rng);
+                sink.push(Case { req, imp, tags: vec!["multi", "prune-after-failed-batch", "nt"] });
+            }
+        }
         let _ = std::fs::remove_dir_all(&d);
     }
     let scenes = if ctx.thorough { 400 } else { 40 };
@@ -300,6 +311,9 @@ pub fn run_c08(ctx: &Ctx, sink: &mut Sink) {
                 3 => toks.push(format!("mindepth:{}", rng.range(1, 3))),
                 4 => { toks.push(format!("mindepth:{}", rng.range(1, 2))); toks.push("type:f".into()); }
                 _ => {}
+            }
+            if rng.chance(1, 5) {
+                toks.extend([crate::fexpr::name_tok(&rng.pick(&sc.names).clone().into_iter().filter(|b| b.is_ascii()).collect::<Vec<u8>>()), "prune".into(), "o".into()]);
             }
             let two = rng.chance(1, 3);
             if two {
